@@ -1,8 +1,95 @@
 import NauyacaVerif.Drv.Common
+import NauyacaVerif.Mw.Cert
+import NauyacaVerif.Fs.Canon
+import NauyacaVerif.Fs.TreeOS
+import NauyacaVerif.Drv.FsD
 namespace NauyacaVerif.Drv.CertD
-open NauyacaVerif.Drv
+open NauyacaVerif.Drv Mw.Cert
 
-/-- line-protocol handler of this area; `none` = not one of ours -/
+/-! Line protocol of the certificate-rule model (space-separated fields).
+
+`cert <rules> <raw> <fp> <loc>`:
+  rules = `-` (none) or entries joined by `;`, each `<prefix>:<require 0|1>:<fps>` with the prefix
+  as comma-separated hex code points and fps = `-` (no list) | `e` (empty list) | ids joined by `+`;
+  raw = the path component of the request URL (code points); fp = certificate id or `-`;
+  loc = canonical location of a resource, or `-`.
+  → `ok <canonical path> <process on canonical_path(raw)> <policy on loc | ->`
+`certcfg <paths> <raw> <fp>`: the configuration layer; paths = `none` (no `paths` key), `-` (empty
+  list) or entries `<prefix>:<require n|0|1>:<fps>` → `ok <enforced decision>` -/
+
+def parseFps (s : String) : Option (Option (List Fp)) :=
+  if s == "-" then some none
+  else if s == "e" then some (some [])
+  else
+    let parts := s.splitOn "+"
+    if parts.all (fun p => p.isNat) then some (some (parts.map String.toNat!)) else none
+
+def parseRule (e : String) : Option Rule :=
+  match e.splitOn ":" with
+  | [p, q, f] =>
+    match parseFps f with
+    | some fps => if q == "0" || q == "1" then some ⟨cpsNat p, q == "1", fps⟩ else none
+    | none => none
+  | _ => none
+
+def parseRules (s : String) : Option (List Rule) :=
+  if s == "-" then some [] else (s.splitOn ";").mapM parseRule
+
+def parseCfg (e : String) : Option PathCfg :=
+  match e.splitOn ":" with
+  | [p, q, f] =>
+    match parseFps f with
+    | some fps =>
+      if q == "n" then some ⟨cpsNat p, none, fps⟩
+      else if q == "0" || q == "1" then some ⟨cpsNat p, some (q == "1"), fps⟩ else none
+    | none => none
+  | _ => none
+
+def parseFp (s : String) : Option (Option Fp) :=
+  if s == "-" then some none else if s.isNat then some (some s.toNat!) else none
+
+def showD : Decision → String
+  | .allow => "allow" | .d60 => "60" | .d61 => "61"
+
+def parsePaths (ps : String) : Option (Option (List PathCfg)) :=
+  if ps == "none" then some none
+  else if ps == "-" then some (some [])
+  else ((ps.splitOn ";").mapM parseCfg).map some
+
 def handle : List String → Option String
+  | "capsule" :: ts :: ms :: listing :: idx :: mx :: ps :: reqs =>
+    match parsePaths ps with
+    | none => some "bad-op"
+    | some cfgPaths =>
+      let t := FsD.parseTree ts
+      let os := Fs.treeOS t (FsD.parseMetas ms)
+      let cfg : Fs.SCfg := { root := [Fs.toName [114, 111, 111, 116]], indices := FsD.comps idx, listingOn := listing == "1", maxSize := mx.toNat! }
+      let one (rq : String) : String :=
+        match rq.splitOn "@" with
+        | [raw, fp] =>
+          match parseFp fp with
+          | none => "bad-req"
+          | some f =>
+            let sp := Fs.Canon.canonSegs (cpsNat raw)
+            match enforced cfgPaths (Fs.Canon.render sp) f with
+            | .d60 => "60"
+            | .d61 => "61"
+            | .allow => FsD.showResp (Fs.handle os cfg (sp.1.map Fs.toName) sp.2)
+        | _ => "bad-req"
+      some ("ok " ++ " | ".intercalate (reqs.map one))
+  | ["cert", rs, raw, fp, loc] =>
+    match parseRules rs, parseFp fp with
+    | some rules, some f =>
+      let path := Fs.Canon.canonicalPath (cpsNat raw)
+      let pol := if loc == "-" then "-" else showD (policy rules (cpsNat loc) f)
+      some s!"ok {showCpsNat path} {showD (process rules path f)} {pol}"
+    | _, _ => some "bad-op"
+  | ["certcfg", ps, raw, fp] =>
+    match parsePaths ps, parseFp fp with
+    | some cfg, some f => some s!"ok {showD (enforced cfg (Fs.Canon.canonicalPath (cpsNat raw)) f)}"
+    | _, _ => some "bad-op"
+  | "capsule" :: _ => some "bad-op"
+  | "cert" :: _ => some "bad-op"
+  | "certcfg" :: _ => some "bad-op"
   | _ => none
 end NauyacaVerif.Drv.CertD
